@@ -638,9 +638,61 @@ def cases_c15(ctx, boost):
     return out
 
 
+# =============================================================================== C01
+CMD_BYTE = {"MakeCredential": [1], "GetAssertion": [2], "ClientPin": [6], "CredentialManagement": [0x0A, 0x41], "LargeBlobs": [0x0C]}
+
+
+def request_messages(g, variant, key, n_random, subsets=True):
+    """(tag, bytes-without-command-byte) for well-formed parameter maps of one command"""
+    rng = g.rng
+    t = {"named": key}
+    r = g.s.res(t)
+    opt = [i for i, f in enumerate(r["fields"]) if not f["required"] and f["rust"] in r["rust"]["pub_fields"]]
+    out = []
+    if subsets:
+        masks = range(1 << len(opt)) if len(opt) <= 8 else [rng.getrandbits(len(opt)) for _ in range(200)]
+        for m in masks:
+            v = g.rand_val(t, p_opt=1.0)
+            slots = [(s_ if (i not in opt or (m >> opt.index(i)) & 1) else None) for i, s_ in enumerate(v[1])]
+            out.append(("subset", casegen.enc_item(g.wire_item(t, ('r', slots), lossy=0.0))))
+    for _ in range(n_random):
+        v = g.rand_val(t, p_opt=rng.choice([0.2, 0.5, 0.9]))
+        out.append(("random+lossy", casegen.enc_item(g.wire_item(t, v, lossy=0.4))))
+    return out
+
+
+def cases_c01(ctx, boost):
+    out = []
+    for cfg in ctx.cfgs(("000", "111")):
+        g = ctx.gen(cfg)
+        for variant, payload in ctx.data["schemas"][cfg]["variants"]["request_variants"]:
+            if not payload or payload == "vendor":
+                continue
+            for tag, body in request_messages(g, variant, payload, 40 * boost):
+                for cb in CMD_BYTE.get(variant, []):
+                    out.append(Case("req", cfg, f"req {cfg} {cb:02x}{body.hex()}", tag=f"{variant} {tag}"))
+    return out
+
+
 NOT_YET = {}
 
 PROPS = {
+    "C01": {"ns": "C01", "cases": cases_c01,
+            "level_text": "Proof. (1) Obligations: the five request schemas regenerated from the source equal the specification's "
+                          "parameter tables (key = position + 1, CBOR type, capacity, required/optional, nested text keys) in all "
+                          "8 configurations (Ob.reqRoles_eq), and each command byte incl. 0x41 routes to its variant. (2) Theorem "
+                          "message (from G-LOOP / indexed_message): for every command and every parameter map given as entries in "
+                          "ANY order, each read by its member's reader, decoding yields that command's request with exactly those "
+                          "members set and all other optional members absent (member_values). (3) Theorem bidirectional (from "
+                          "G-RT): for ClientPin / CredentialManagement / LargeBlobs, decode(cmd||encode v||rest) = v for every "
+                          "well-typed v. PARTIAL: for MakeCredential / GetAssertion the per-member ReadsAs facts are supplied by "
+                          "G-RT (readsAs_encode) for the exact members and by the C13 / C14 reader theorems for the lossy ones; the "
+                          "composition 'whole MC/GA message with lossy members' is instantiated by the correspondence, not by a "
+                          "closed Lean term. Correspondence: every subset of optional top-level members of every command (2^7, "
+                          "2^7, 2^8, 2^3, 2^5), random nested subsets, boundary values, lossy members, both 0x0A and 0x41.",
+            "rule": "every optional-member subset of every parameter command × random well-typed values, plus random messages "
+                    "with over-long names/icons, unknown algorithms and rp icon; default + all-features (quick) / all 8 configs",
+            "assumptions": ["usize = 64 bit"]},
     "C15": {"ns": "C15", "cases": cases_c15,
             "level_text": "Proof. G-RT (Ctap/RoundTrip.lean, theorem rt): for every schema of the universe that is well-formed "
                           "(wf: distinct keys incl. aliases, UTF-8 keys, consistent string/number tables, null-accepting members "
